@@ -51,8 +51,8 @@ void _ZNSt7__cxx1112basic_stringIcSt11char_traitsIcESaIcEEC1ERKS4_(struct std_st
 void _ZNSt7__cxx1112basic_stringIcSt11char_traitsIcESaIcEEC1EmcRKS3_(struct std_string *this, unsigned long n, char c, const void *a)
 { (void)a; (void)c; SZ(this) = n; __havoc_str(this); }
 unsigned long _ZNKSt7__cxx1112basic_stringIcSt11char_traitsIcESaIcEE4sizeEv(const struct std_string *this) { LIVE((void *)this, 32, "std::string::size"); return SZ(this); }
-char g_cstr[8]; unsigned long g_cstr_id;   /* the (one) c_str() result and the content identity it stands for (strid.h) */
-const char *_ZNKSt7__cxx1112basic_stringIcSt11char_traitsIcESaIcEE5c_strEv(const struct std_string *this) { LIVE((void *)this, 32, "std::string::c_str"); g_cstr_id = CW(this, 0); return g_cstr; }
+char g_cstr[8]; unsigned long g_cstr_id, g_cstr_len;   /* the (one) c_str() result and the content identity it stands for (strid.h) */
+const char *_ZNKSt7__cxx1112basic_stringIcSt11char_traitsIcESaIcEE5c_strEv(const struct std_string *this) { LIVE((void *)this, 32, "std::string::c_str"); g_cstr_id = CW(this, 0); g_cstr_len = SZ(this); return g_cstr; }
 struct std_string *_ZNSt7__cxx1112basic_stringIcSt11char_traitsIcESaIcEE6appendERKS4_(struct std_string *this, const struct std_string *s)
 { LIVE(this, 32, "std::string::append"); LIVE((void *)s, 32, "std::string::append(arg)"); __CPROVER_assume(SZ(this) + SZ(s) <= MAXLEN); SZ(this) = SZ(this) + SZ(s); __havoc_str(this); return this; }
 struct std_string *_ZNSt7__cxx1112basic_stringIcSt11char_traitsIcESaIcEE6appendEmc(struct std_string *this, unsigned long n, char c)
@@ -77,6 +77,16 @@ struct std_string *_ZNSt7__cxx1112basic_stringIcSt11char_traitsIcESaIcEE6assignE
 void _ZNSt7__cxx1112basic_stringIcSt11char_traitsIcESaIcEEC1EOS4_(struct std_string *this, struct std_string *s)
 { LIVE(s, 32, "std::string(string&&)"); CW(this, 0) = CW(s, 0); CW(this, 1) = CW(s, 1); CW(this, 2) = CW(s, 2); CW(this, 3) = CW(s, 3); SZ(s) = 0; }
 _Bool _ZNKSt7__cxx1112basic_stringIcSt11char_traitsIcESaIcEE5emptyEv(const struct std_string *this) { LIVE((void *)this, 32, "std::string::empty"); return SZ(this) == 0; }
+void _ZNSt7__cxx1112basic_stringIcSt11char_traitsIcESaIcEE7reserveEm(struct std_string *this, unsigned long n) { LIVE(this, 32, "std::string::reserve"); (void)n; }
+/* string& append(const char* s): the characters up to the first zero byte -- for a pointer into the c_str() of a string at offset o that is
+ * SOME length up to size - o (a std::string may hold zero bytes), for any other C string some length */
+struct std_string *_ZNSt7__cxx1112basic_stringIcSt11char_traitsIcESaIcEE6appendEPKc(struct std_string *this, const char *s)
+{
+  LIVE(this, 32, "std::string::append(const char*)"); __CPROVER_assert(s != 0, "std::string::append(const char*): a null pointer is not valid");
+  unsigned long k = __g2c_nondet_ulong();
+  if (__CPROVER_same_object(s, g_cstr)) { unsigned long o = (unsigned long)__CPROVER_POINTER_OFFSET(s); __CPROVER_assert(o <= g_cstr_len, "c_str() + offset stays inside the string"); __CPROVER_assume(k <= g_cstr_len - o); }
+  __CPROVER_assume(k <= MAXLEN && SZ(this) + k <= MAXLEN); SZ(this) = SZ(this) + k; __havoc_str(this); return this;
+}
 /* string& append(const string& s, size_t pos, size_t n): the part of s from pos, at most n characters; pos beyond size(s) is std::out_of_range */
 struct std_string *_ZNSt7__cxx1112basic_stringIcSt11char_traitsIcESaIcEE6appendERKS4_mm(struct std_string *this, const struct std_string *s, unsigned long pos, unsigned long n)
 {
@@ -87,7 +97,7 @@ struct std_string *_ZNSt7__cxx1112basic_stringIcSt11char_traitsIcESaIcEE6appendE
 }
 /* loop variant of a scan (FIND_SCAN_VARIANT): a text that is searched again is searched from a later position -- a search loop that
  * does not advance never ends */
-unsigned long g_find_n, g_find_prev_pos; const void *g_find_prev_this;
+unsigned long g_find_n, g_find_prev_pos, g_find_hits; const void *g_find_prev_this;   /* g_find_hits: searches that found an occurrence */
 /* size_t find(const string&, size_t pos) const: npos or a position p with p + size(s) <= size() */
 unsigned long _ZNKSt7__cxx1112basic_stringIcSt11char_traitsIcESaIcEE4findERKS4_m(const struct std_string *this, const struct std_string *s, unsigned long pos)
 { LIVE((void *)this, 32, "std::string::find"); LIVE((void *)s, 32, "std::string::find(arg)"); (void)pos;
@@ -95,7 +105,7 @@ unsigned long _ZNKSt7__cxx1112basic_stringIcSt11char_traitsIcESaIcEE4findERKS4_m
   __CPROVER_assert(g_find_n == 0 || (const void *)this != g_find_prev_this || pos > g_find_prev_pos, "scan variant: a repeated search of the same text starts behind the previous start (the loop ends)");
   g_find_n++; g_find_prev_pos = pos; g_find_prev_this = this;
 #endif
-  unsigned long p = __g2c_nondet_ulong(); if (__g2c_nondet_bool()) return ~0ul; __CPROVER_assume(p >= pos && p <= SZ(this) && SZ(s) <= SZ(this) - p); return p; }
+  unsigned long p = __g2c_nondet_ulong(); if (__g2c_nondet_bool()) return ~0ul; __CPROVER_assume(p >= pos && p <= SZ(this) && SZ(s) <= SZ(this) - p); g_find_hits++; return p; }
 /* std::stod / std::stoll / std::stoull: a number, or std::invalid_argument / std::out_of_range */
 double __g2c_nondet_double(void); long __g2c_nondet_long(void);
 char _ZTISt16invalid_argument_obj[16];
